@@ -45,6 +45,11 @@ def msgpack_fixed():
         # (skipped by the scope's destructor) and before the requested one (skipped while searching for the key)
         tail_doc = [0x82, 0xa1, 0x61, 5, 0xa1, 0x62, 0xd9, 40] + [120] * 40
         head_doc = [0x83, 0xa1, 0x62, 0xc4, 30] + [7] * 30 + [0xa1, 0x61, 5, 0xa1, 0x63, 0x92, 0xd9, 33] + [121] * 33 + [0xcd, 1, 0]
+        # a std::tuple member loaded with the Skip policies: truncation inside a component must still be reported
+        tuple_doc = [0x82, 0xa1, 0x74, 0x93, 1, 0xa5] + S("hello") + [0xcb, 0x3f, 0xf8, 0, 0, 0, 0, 0, 0, 0xa1, 0x6e, 5]
+        tuple_root = {"k": "obj", "ops": [{"op": "req", "ks": S("t"), "t": "tuple_i32_str_f64"}, {"op": "req", "ks": S("n"), "t": "i32"}]}
+        for polname, pol in (("skip", {"mm": "skip", "ov": "skip"}), ("throw", {"mm": "throw", "ov": "throw"})):
+            out.append({"id": "tuple-%s-%s" % (polname, sfx), "doc": tuple_doc, "root": tuple_root, "pol": pol, "stream": stream})
         only_a = {"k": "obj", "ops": [{"op": "req", "ks": S("a"), "t": "i8"}]}
         out.append({"id": "unreadtail-" + sfx, "doc": tail_doc, "root": only_a, "pol": {"mm": "throw", "ov": "throw"}, "stream": stream})
         out.append({"id": "unreadhead-" + sfx, "doc": head_doc, "root": only_a, "pol": {"mm": "throw", "ov": "throw"}, "stream": stream})
